@@ -18,6 +18,12 @@ bytes are lowercase hex (`-` = empty), numbers decimal.
     enc <spec>   →  enc=<hex|panic> marshal=<same|hex|panic> payload=<hex|panic>
     dec <hex>    →  raw=<reject | ok <spec>> tx=<ok|reject|panic>
     big <n> <b>  →  transaction with one input and an extra of n bytes b: marshal length / decision
+    alias <when> <how> <layout> <hex>
+                 →  tx=reject | tx=ok payload=<same|hex> marshal=<same|hex> hash=pm fields=same remarshal=same
+       buffer-ownership sequence on the Go side (decode from a caller-kept buffer, overwrite the
+       buffer before/after the first accessor). The model is a pure function of the bytes, so
+       its answer ignores <when>/<how>/<layout>: payload / marshal are those of the decoded
+       value (`same` = equal to the input bytes), the hash is the hash of that payload.
 -/
 namespace Mixin.Driver.TxCodec
 open Mixin.TxCodec
@@ -187,6 +193,20 @@ def step (t : List String) : String :=
       | some tx =>
         let v := if !guards tx then "panic" else if (decodeTx b).isSome then "ok" else "reject"
         s!"raw=ok {join (showTx tx)} tx={v}"
+  | ["alias", w, h, l, hx] =>
+    if !(["first", "afterhash", "afterpayload", "aftermarshal", "never"].contains w) ||
+       !(["zero", "inc", "flip", "other"].contains h) || !(["exact", "spare", "middle"].contains l) then "bad-op" else
+    match unhex hx with
+    | none => "bad-op"
+    | some b =>
+      match decodeTx b with
+      | none => "tx=reject"
+      | some tx =>
+        let same (x : Option B) : String :=
+          match x with
+          | none => "panic"
+          | some y => if y == b then "same" else hex y
+        s!"tx=ok payload={same (payloadMarshal tx)} marshal={same (marshal tx)} hash=pm fields=same remarshal={same (marshal tx)}"
   | ["big", n, f] =>
     match n.toNat?, f.toNat? with
     | some n, some f =>
